@@ -107,8 +107,12 @@ type parserExec struct {
 	c12Matches, c12AfterRebuild, c12AfterCut     int
 	runBlocks, runBlocksAfterShrink              int
 
-	saLen      int  // GSAP: buffer-relative extent of the current suffix array (model)
-	capFillXor byte // XORed into the fill byte of Reset slices' spare capacity
+	saLen int // GSAP: buffer-relative extent of the current suffix array (model)
+	// trackSlices: the slices handed over with Reset(data) are remembered;
+	// release overwrites them when the caller drops the parser.
+	trackSlices bool
+	given       [][]byte
+	capFillXor  byte // XORed into the fill byte of Reset slices' spare capacity
 
 	keepBlocks bool
 	blocks     []blockRec
@@ -246,6 +250,18 @@ func (x *parserExec) step(op POp) {
 		panic("unknown op " + op.Op)
 	}
 	x.checkHeld(op.Op)
+}
+
+// release: the caller drops the parser; the slices it handed over with
+// Reset(data) are its own again and get overwritten.
+func (x *parserExec) release() {
+	for _, g := range x.given {
+		for i := range g {
+			g[i] = 0xdd
+		}
+	}
+	x.given = nil
+	x.p = nil
 }
 
 // checkHeld: a block handed back by an earlier Parse belongs to the caller.
@@ -404,6 +420,9 @@ func (x *parserExec) doReset(op POp) {
 		}
 	}
 	var err error
+	if x.trackSlices && data != nil {
+		x.given = append(x.given, data[:cap(data)])
+	}
 	if x.call("Reset", []string{"C15", "C16"}, func() { err = x.p.Reset(data) }) {
 		return
 	}
